@@ -49,6 +49,10 @@ CHECKS["C19"] = dict(cat="proof", design="§3 C19",
     text="Expression trees are enumerated over the accepted grammar (every constructor on symbols and on every leaf class, all depth-2 compositions, matrices, cse path, two-entry function dictionary; reverse direction: every accepted opcode incl. fmod, remainder, floor/ceil, sign, comparisons, logic, fmin/fmax, if_else, hyperbolics). For each program the converter output (CasADi instruction list resp. SymPy tree) and the source are both translated to SMT (ite encoding, transcendental heads uninterpreted) and z3 decides source != converted on the common domain; unsat for every program; constant programs are decided by evaluation; symbol-table consistency checked.",
     note="trusted: the SymPy->SMT reference translator (standard meaning of each node), ite encoder, z3. Constants within 2 ulp of p/q read as p/q on both sides; programs in which SymPy leaves an irrational numeric factor next to symbols are outside the bounded grammar (CasADi folds them in double precision); remainder on |a|<=8; an exception from the converter counts as rejection (allowed).",
     tech="solver-based checking: grammar-enumerated programs, converter output and source both encoded in SMT (z3, UF + LRA/NRA + ints), sat models replayed numerically on both sides")
+CHECKS["C09"] = dict(cat="translation_validation", design="§3 C09, §1.7",
+    text="Every shipped equation set is generated through its own entry point (estimator via both generators, rdd2 / rdd2_loglinear / bezier via their __main__ export blocks, mr_ref_traj via the generic generator) with default options, plus single-option flips (thorough: pairs). Per generated function: exported name present (none missing/extra/duplicate), n_in/n_out, argument names and sparsity tables equal the Function's; the straight-line C body is parsed and proved congruent to the Function's instruction list in QF_UF with all operations uninterpreted (bit-identical results under any deterministic IEEE/libm semantics, incl. non-finite values in unselected branches); gcc -Wall -Werror compiles it; the compiled object is executed against CasADi's VM at random points (validation of the parser). Option combinations CasADi rejects must raise.",
+    note="trusted: CasADi instruction API, the C parser (cross-executed every run), gcc, IEEE commutativity of + and *. Not addressed: compiler correctness; an export list that omits a derive_* function cannot be noticed (the equation set is whatever the entry point passes to the generator).",
+    tech="solver-based translation validation: generated C parsed to an SSA DAG and proved congruent (QF_UF, z3) to the CasADi instruction list; differential execution as parser validation")
 CHECKS["C04"] = dict(cat="proof", design="§3 C04",
     text="Ad/ad/bracket of every group/algebra executed symbolically; (Ad_X y)^ = M(X) y^ M(X^-1), Ad homomorphism and inverse, ad = bracket = matrix commutator, antisymmetry, Jacobi, block-diagonal direct-sum ad, and Ad_exp(x) = expm(ad_x) in closed form (Rodrigues / Barfoot quartic) are proved per entry; wrong shapes and crashes of offered operations are violations.",
     note="trusted: as C01 plus the closed forms of expm(ad) and the theorem Ad_{exp A} = expm(ad_A) (used for SE_2(3)/Euler where exp ends in from_Matrix). Operations raising NotImplementedError are out of scope as the property states.")
